@@ -71,9 +71,17 @@ def run_variant(case, script, v, workdir, tag):
         text = "\n".join(lines)
     prog_arg = text
     if v.path:
-        p = os.path.join(workdir, "prog_%s.pfdl" % tag)
+        # every program of the run is written to the SAME path, and the file keeps one (old)
+        # modification time: an order template copied over "the current order" (cp -p); what is
+        # scheduled must be what the file contains now, not what an earlier scheduler read there
+        p = os.path.join(workdir, "current_order.pfdl")
+        with open(p, "w") as f:
+            f.write(render(OTHER_PROGRAM))
+        os.utime(p, (1000000000, 1000000000))
+        impl_run.ImplRun(p, [gen_run.FINAL_VALUATION], [], test_ids=not v.uuid)   # an earlier order read from that path
         with open(p, "w") as f:
             f.write(text)
+        os.utime(p, (1000000000, 1000000000))
         prog_arg = p
     notes = []
     other = None
